@@ -122,3 +122,46 @@ def report(repo, rep, rule, select, why=''):
                                                                   (' (' + f.get(k.rsplit(':', 1)[0] + ':why', '') + ')') if f.get(k.rsplit(':', 1)[0] + ':why') else ''),
                   nontrivial=True)
     return n
+
+
+def construction_sites(repo, rep, rule, why=''):
+    """who-may-construct: a context is built from scratch only by the pipeline entry (python_to_sdocs) and by the class itself;
+    everybody else derives one from the context it was handed, through the public methods the model above verifies (the private
+    copier may be called only inside the class).  Returns the number of instances."""
+    import ast
+    from engine.astutil import call_name
+    m = repo.module('prettyprinter')
+    ci = m.classes.get('PrettyContext')
+    if ci is None:
+        raise AnalysisError('PrettyContext vanished')
+    private = {n_ for n_ in ci.methods if n_.startswith('_') and not n_.startswith('__')}
+    entry = repo.func('prettyprinter', 'python_to_sdocs')
+    n = 0
+    seen_entry = False
+    for f in repo.all_functions():
+        inside_class = f.module is m and f.qualname.startswith('PrettyContext.')
+        for c in ast.walk(f.node):
+            if not isinstance(c, ast.Call):
+                continue
+            if isinstance(c.func, ast.Name):
+                r = repo.resolve(f.module, c.func.id)
+                if r and r[0] == 'class' and r[1] is ci:
+                    n += 1
+                    ok = inside_class or f is entry
+                    seen_entry = seen_entry or f is entry
+                    rep.check(ok, rule, 'context-built-from-scratch:%s' % f.qualname, '%s:%d' % (f.module.relpath, c.lineno),
+                              'contexts are created by the pipeline entry / the class only',
+                              '%s%s builds a PrettyContext from scratch: every setting it does not copy by hand (max_seq_len, sort_dict_keys, '
+                              'depth, the visited set, user values) silently falls back to the constructor default for everything printed below'
+                              % ((why + ': ') if why else '', f.key), nontrivial=True)
+            elif isinstance(c.func, ast.Attribute) and c.func.attr in private and not inside_class:
+                # a private method of the context class called on something that may be a context
+                n += 1
+                rep.fail(rule, 'private-context-method:%s:%s' % (f.qualname, c.func.attr), '%s:%d' % (f.module.relpath, c.lineno),
+                         '%s%s calls the private %s() on a context: fields are overwritten outside the derivation methods the checks verify '
+                         '(nested_call, use_multiline_strategy, assoc)' % ((why + ': ') if why else '', f.key, c.func.attr))
+    n += 1
+    rep.check(seen_entry, rule, 'context-built-by-entry', entry.where, 'python_to_sdocs creates the root context',
+              'python_to_sdocs no longer creates the root context itself (a context created elsewhere - at import time, in a default argument - is '
+              'shared between calls)', nontrivial=True)
+    return n
